@@ -207,12 +207,16 @@ impl Session {
                 .unwrap();
 
                 if !ignore_mac {
-                    // MAC commands may be in the FHDR or the FRMPayload
+                    // MAC commands may be in the FHDR or the FRMPayload; a frame that carries
+                    // them in both places is answered as one sequence: once an answer did not
+                    // fit, no later answer of the frame is queued
+                    let mut answers_full = false;
                     self.handle_downlink_macs(
                         configuration,
                         region,
                         parse_downlink_mac_commands(decrypted.fhdr().f_opts()),
                         snr,
+                        &mut answers_full,
                     );
                     if let FrmPayload::MacCommands(mac_cmds) = decrypted.frm_payload() {
                         self.handle_downlink_macs(
@@ -220,6 +224,7 @@ impl Session {
                             region,
                             parse_downlink_mac_commands(mac_cmds),
                             snr,
+                            &mut answers_full,
                         );
                     }
                 }
@@ -420,6 +425,7 @@ impl Session {
         region: &mut region::Configuration,
         cmds: MacCommands<'_, DownlinkMacCommand<'_>>,
         snr: i8,
+        answers_full: &mut bool,
     ) {
         use DownlinkMacCommand::*;
         let mut channel_mask = region.channel_mask_get();
@@ -427,9 +433,8 @@ impl Session {
         // processes the leading well-formed prefix of the stream.
         let mut cmd_iter = cmds.filter_map(Result::ok).peekable();
         let mut num_adrreq = 0;
-        // set once an answer did not fit: from then on no answer is queued, so that only
-        // trailing answers are ever missing from the next uplink
-        let mut answers_full = false;
+        // `answers_full` is set once an answer did not fit: from then on no answer is queued,
+        // so that only trailing answers are ever missing from the next uplink
         // false once a command of the current LinkADRReq block carried an RFU ChMaskCntl
         let mut chmaskcntl_valid = true;
         while let Some(cmd) = cmd_iter.next() {
@@ -440,7 +445,7 @@ impl Session {
                     // For now we just return dummy value of "255"
                     let mut cmd = DevStatusAnsCreator::new();
                     let _ = cmd.set_battery(255).set_margin(snr);
-                    self.queue_answer(&mut answers_full, cmd);
+                    self.queue_answer(answers_full, cmd);
                 }
                 DlChannelReq(payload) => {
                     if region.has_fixed_channel_plan() {
@@ -452,7 +457,7 @@ impl Session {
 
                     let mut cmd = DlChannelAnsCreator::new();
                     cmd.set_channel_frequency_ack(ack_f).set_uplink_frequency_exists_ack(ack_c);
-                    self.queue_answer(&mut answers_full, cmd);
+                    self.queue_answer(answers_full, cmd);
                 }
                 LinkADRReq(payload) => {
                     // Contiguous LinkADRReq commands shall be processed in the
@@ -514,7 +519,7 @@ impl Session {
                         cmd.set_channel_mask_ack(cm_ack)
                             .set_data_rate_ack(dr.is_some())
                             .set_tx_power_ack(pw.is_some());
-                        self.queue_answer(&mut answers_full, cmd);
+                        self.queue_answer(answers_full, cmd);
                     }
                     num_adrreq = 0;
                     chmaskcntl_valid = true;
@@ -543,7 +548,7 @@ impl Session {
 
                     let mut cmd = NewChannelAnsCreator::new();
                     cmd.set_channel_frequency_ack(ack_f).set_data_rate_range_ack(ack_d);
-                    self.queue_answer(&mut answers_full, cmd);
+                    self.queue_answer(answers_full, cmd);
                 }
                 RXParamSetupReq(payload) => {
                     let freq = payload.frequency().value();
@@ -573,7 +578,7 @@ impl Session {
                         .set_rx2_data_rate_ack(rx2_dr.is_some())
                         .set_channel_ack(freq_ack);
 
-                    self.queue_answer(&mut answers_full, cmd);
+                    self.queue_answer(answers_full, cmd);
 
                     // TODO: An end-device that expects to receive Class C
                     // downlink frames will send an uplink frame as soon
@@ -582,7 +587,7 @@ impl Session {
                 }
                 RXTimingSetupReq(payload) => {
                     configuration.rx1_delay = super::del_to_delay_ms(payload.delay());
-                    self.queue_answer(&mut answers_full, RXTimingSetupAnsCreator::new());
+                    self.queue_answer(answers_full, RXTimingSetupAnsCreator::new());
                 }
                 _ => (),
             }
